@@ -246,33 +246,39 @@ def skipWhile (c : Nat) : Nat → List Nat → Nat → Nat
 def anyNonZero (s : List Nat) (start stop : Nat) : Bool :=
   ((s.take stop).drop start).any (· != Ch.zero)
 
-/-- `roundStringNumber`; returns the stream, the new `index` and `power_increased`. -/
-def roundStringNumber (start : Nat) (s : List Nat) (index : Nat) (roundUp : Bool) : M (List Nat × Nat × Bool) := do
+/-- the test of `roundStringNumber`: the sticky scan of the lower digits, the rounding digit against '5',
+and for an exact tie the parity of the next digit (when there is one).  `true` = increment. -/
+def roundTest (start : Nat) (s : List Nat) (index : Nat) (roundUp : Bool) : M Bool := do
   let roundUp := roundUp || anyNonZero s start index
   let d ← rdAt s index
-  let index := index + 1
   let tieUp ←
     if d = Ch.five ∧ !roundUp then
-      (if index < s.length then do
-        let nx ← rdAt s index
+      (if index + 1 < s.length then do
+        let nx ← rdAt s (index + 1)
         pure (decide ((nx - Ch.zero) % 2 = 1))
        else pure false)
     else pure false
-  let round := decide (Ch.five < d) || (decide (d = Ch.five) && (roundUp || tieUp))
-  if round then
-    -- `number` and `index` advance together from here
-    let j := skipWhile Ch.nine s.length s index
-    if s.length ≤ j then
-      pure (s ++ [Ch.one], j, true)                -- `number > last`: the carry digit is appended
+  pure (decide (Ch.five < d) || (decide (d = Ch.five) && (roundUp || tieUp)))
+
+/-- the `if (round) { … }` block of `roundStringNumber` (`index` is already past the rounding digit;
+`number` and `index` advance together over the nines) -/
+def roundCarry (start : Nat) (s : List Nat) (index : Nat) : M (List Nat × Nat × Bool) :=
+  let j := skipWhile Ch.nine s.length s index
+  if s.length ≤ j then
+    pure (s ++ [Ch.one], j, true)                -- `number > last`: the carry digit is appended
+  else do
+    let dj ← rdAt s j
+    if dj = Ch.nine then do
+      let s ← wrAt start s j Ch.one
+      pure (s, j, true)
     else do
-      let dj ← rdAt s j
-      if dj = Ch.nine then do
-        let s ← wrAt start s j Ch.one
-        pure (s, j, true)
-      else do
-        let s ← wrAt start s j (dj + 1)
-        pure (s, j, false)
-  else pure (s, index, false)
+      let s ← wrAt start s j (dj + 1)
+      pure (s, j, false)
+
+/-- `roundStringNumber`; returns the stream, the new `index` and `power_increased`. -/
+def roundStringNumber (start : Nat) (s : List Nat) (index : Nat) (roundUp : Bool) : M (List Nat × Nat × Bool) := do
+  let round ← roundTest start s index roundUp
+  if round then roundCarry start s (index + 1) else pure (s, index + 1, false)
 
 /-- the zero-restoring loop `while (zeros != 0) { --index; storage[index] = '0'; --zeros; }` -/
 def restoreZeros (start : Nat) : Nat → List Nat → Nat → M (List Nat × Nat)
@@ -457,6 +463,42 @@ def f32 : Cfg := ⟨F32.bias, F32.mantissaSize, F32.signMask, F32.exponentMask, 
 -- format kinds are numbered as `Digit::RealFormatType`: `fmtDefault`, `fmtFixed`, `fmtSemiFixed`
 -- come from the generated constants.
 
+/-- the `if (no_fraction) { … }` block of `realToString` after `drop` is known: shift the mantissa to the
+integer part, then `bigIntDropDigits`.  Returns `(b_int, round_up)`. -/
+def runNoFraction (c : Cfg) (mantissa firstShift positiveExp drop : Nat) : M (Nat × Bool) := do
+  let mShift := c.mantissaSize + drop
+  let r ←
+    if mShift < positiveExp then do
+      let b ← bigFit c.totalBits (mantissa <<< (positiveExp - mShift))
+      pure (b, false)
+    else
+      -- any non-zero bit dropped here makes a trailing '5' more than a tie
+      pure (mantissa >>> (mShift - positiveExp), decide (firstShift < mShift - positiveExp))
+  if drop ≠ 0 then do
+    let d ← dropDigits r.1 drop
+    pure (d.1, r.2 || d.2)
+  else pure r
+
+/-- the `else { … }` block of `realToString` once `fraction_length` and `needed` (before `++needed`) are
+known: `b_int >>= first_shift`, the multiplications by powers of five, the final right shift.
+Returns `(b_int, fraction_length, round_up)`. -/
+def runFraction (c : Cfg) (mantissa firstShift fl0 needed0 : Nat) : M (Nat × Nat × Bool) := do
+  let needed := needed0 + 1 -- for rounding
+  let fractionLength := if needed < fl0 then needed else fl0
+  let shift0 := if needed < fl0 then fl0 - needed else 0
+  let roundUp := decide (needed < fl0)
+  let b := mantissa >>> firstShift
+  let r ←
+    if C8.maxPowerOfFive ≤ fractionLength then
+      -- `max_index = b_int.MaxIndex()`: low words are dropped only when the BigInt is about to run out of room
+      mulLoop c.totalBits c.maxIndex (fractionLength / C8.maxPowerOfFive + 1) b shift0 fractionLength
+    else pure (b, shift0, fractionLength)
+  let b ← if r.2.2 ≠ 0 then do
+      let p ← tbl C8.powerOfFive r.2.2
+      bigFit c.totalBits (r.1 * p)
+    else pure r.1
+  pure (b >>> r.2.1, fractionLength, roundUp)
+
 /-- The digit run: everything `realToString` does between the zero test and `bigIntToString`.
 Returns `(b_int, digits, fraction_length, is_positive_exp, round_up)`. -/
 def digitRun (c : Cfg) (mantissa0 biasField precision fmt : Nat) : M (Nat × Nat × Nat × Bool × Bool) := do
@@ -472,41 +514,19 @@ def digitRun (c : Cfg) (mantissa0 biasField precision fmt : Nat) : M (Nat × Nat
   let extraDigits := decide (precision < digits) && !fixed
   let bigOffset := decide (firstBit ≤ positiveExp)
   let noFraction := isPositiveExp && (bigOffset || extraDigits)
-  if noFraction then
+  if noFraction then do
     let drop ← if !extraDigits then pure 0 else csub 21 digits (precision + 1)
-    let mShift := c.mantissaSize + drop
-    let (b, roundUp) ←
-      if mShift < positiveExp then do
-        let b ← bigFit c.totalBits (mantissa <<< (positiveExp - mShift))
-        pure (b, false)
-      else
-        -- any non-zero bit dropped here makes a trailing '5' more than a tie
-        pure (mantissa >>> (mShift - positiveExp), decide (firstShift < mShift - positiveExp))
-    if drop ≠ 0 then do
-      let (b, inexact) ← dropDigits b drop
-      pure (b, digits, 0, isPositiveExp, roundUp || inexact)
-    else pure (b, digits, 0, isPositiveExp, roundUp)
-  else
-    let (fl0, needed0) ←
+    let r ← runNoFraction c mantissa firstShift positiveExp drop
+    pure (r.1, digits, 0, isPositiveExp, r.2)
+  else do
+    let fn ←
       if isPositiveExp then do
         let fl ← csub 22 firstBit positiveExp
         let needed ← if fixed then pure precision else csub 23 precision digits
         pure (fl, needed)
       else pure (firstBit + positiveExp, digits + precision)
-    let needed := needed0 + 1 -- for rounding
-    let (shift, fractionLength, roundUp) :=
-      if needed < fl0 then (fl0 - needed, needed, true) else (0, fl0, false)
-    let b := mantissa >>> firstShift
-    let (b, shift, times) ←
-      if C8.maxPowerOfFive ≤ fractionLength then
-        -- `max_index = b_int.MaxIndex()`: low words are dropped only when the BigInt is about to run out of room
-        mulLoop c.totalBits c.maxIndex (fractionLength / C8.maxPowerOfFive + 1) b shift fractionLength
-      else pure (b, shift, fractionLength)
-    let b ← if times ≠ 0 then do
-        let p ← tbl C8.powerOfFive times
-        bigFit c.totalBits (b * p)
-      else pure b
-    pure (b >>> shift, digits, fractionLength, isPositiveExp, roundUp)
+    let r ← runFraction c mantissa firstShift fn.1 fn.2
+    pure (r.1, digits, r.2.1, isPositiveExp, r.2.2)
 
 /-- the non-zero finite case of `realToString`, after the sign has been written: the digit run,
 `start_at = stream.Length()`, `bigIntToString`, and the layout selected by `format.Type` -/
